@@ -78,7 +78,10 @@ var (
 	salt   = []byte("01234567890123456789")
 )
 
-func refNative(pw string) []byte {
+func refNative(pw string) []byte { return mysqlNative(salt, pw) }
+
+// mysql_native_password: SHA1(pw) XOR SHA1(salt || SHA1(SHA1(pw))); empty password -> empty.
+func mysqlNative(salt []byte, pw string) []byte {
 	if pw == "" {
 		return []byte{}
 	}
@@ -616,7 +619,7 @@ func main() {
 	r.Sample(kase{History: []event{{Op: "set", NS: "A", Users: []cred{{"u", "p"}}}, {Op: "set", NS: "B", Users: []cred{{"u", "p:q"}}}, {Op: "del", NS: "B"}}})
 	r.Sample(kase{History: []event{{Op: "set", NS: "A", Users: []cred{{"u:", ":"}}}, {Op: "set", NS: "A", Users: []cred{{"v", "q"}}}}})
 	r.Sample(kase{History: []event{{Op: "set", NS: "A", Users: []cred{{"u", "p"}}}, {Op: "set", NS: "B", Users: []cred{{"u", "q"}}}, {Op: "abn", NS: "B", Users: []cred{{"u", "p:q"}}}, {Op: "set", NS: "A", Users: []cred{{"u", "p"}}}}})
-	r.Set("rule", "Search 1 (manager_two_phase): BFS over histories of prep(ns, users) / commit(ns) / del(ns), ns in {A,B}, users {u,v} x passwords {p,q}, on the real Manager (ReloadNamespacePrepare, ReloadNamespaceCommit - accepted or refused by Gaea -, DeleteNamespace) from 4 initial configurations, depth 4 (thorough 5), so that operations on different namespaces interleave between a prepare and its commit; reference: committed configuration = last accepted commit / initial, removed by del; credentials checked through Session.handleHandshakeResponse + IsAllowConnect after every transition. Searches 2..: BFS over histories of set(ns, user list) [prepare+commit] / abn(ns, user list) [abandoned set: the standby generation is built by clone+rebuild / ReloadNamespacePrepare and never committed; the reference does not change and credentials are checked on the generation that is live] / del(ns), ns in {A,B,C}, user lists of one user to depth 4 (thorough: depth 5, plus a second search with one- and two-user lists to depth 3) over names {u, v, 'u:'} x passwords {p, q, 'p:q', ':', 'p:'}; an event is enabled only if no other namespace holds the same user+password; states are deduplicated on the canonical content of UserManager.users / userNamespaces plus the reference state; every transition is executed on fresh real objects and followed by the oracle over all 15 pairs + 7 probe pairs.")
+	r.Set("rule", "Search 1 (manager_two_phase): BFS over histories of prep(ns, users) / commit(ns) / del(ns), ns in {A,B}, users {u,v} x passwords {p,q}, on the real Manager (ReloadNamespacePrepare, ReloadNamespaceCommit - accepted or refused by Gaea -, DeleteNamespace) from 4 initial configurations, depth 4 (thorough 5), so that operations on different namespaces interleave between a prepare and its commit; reference: committed configuration = last accepted commit / initial, removed by del; credentials checked after every transition both by handshakes in flight while the event lands (real Session.Handshake over net.Pipe, event applied after the client wrote the first byte of its response; decision must follow the configuration after the event) and after the fact through Session.handleHandshakeResponse + IsAllowConnect. Searches 2..: BFS over histories of set(ns, user list) [prepare+commit] / abn(ns, user list) [abandoned set: the standby generation is built by clone+rebuild / ReloadNamespacePrepare and never committed; the reference does not change and credentials are checked on the generation that is live] / del(ns), ns in {A,B,C}, user lists of one user to depth 4 (thorough: depth 5, plus a second search with one- and two-user lists to depth 3) over names {u, v, 'u:'} x passwords {p, q, 'p:q', ':', 'p:'}; an event is enabled only if no other namespace holds the same user+password; states are deduplicated on the canonical content of UserManager.users / userNamespaces plus the reference state; every transition is executed on fresh real objects and followed by the oracle over all 15 pairs + 7 probe pairs.")
 	r.Assume("a pair whose password check passes but for which GetNamespaceByUser returns \"\" does not authenticate: handleHandshakeResponse binds namespace \"\" and IsAllowConnect refuses the connection (counted as stale_password_entries_seen)")
 	pprof.StopCPUProfile()
 	r.Assume("the control plane keeps user+password unique across namespaces and user names unique inside a namespace (cc checkForDuplicateUsernameAndPassword, models verifyUsers)")
